@@ -1,8 +1,8 @@
 (* Props/C03.v -- property theorems for C03 (incremental processing equals one-shot
    processing for every chunking).  Only statements, each closed by [exact]. *)
 From Coq Require Import NArith List Bool.
-From AV Require Import Generated.Table Spec.Utf8 Spec.Vt Spec.Strip Model.Base Model.Utf8parse Model.Parser Model.Strip
-  Proofs.TableFacts Proofs.StripMachine Proofs.StripSim Proofs.StripStr.
+From AV Require Import Generated.Table Spec.Utf8 Spec.Vt Spec.Strip Spec.Sgr Model.Base Model.Utf8parse Model.Parser Model.Strip
+  Model.Wincon Proofs.TableFacts Proofs.ParserSim Proofs.StripMachine Proofs.StripSim Proofs.StripStr Proofs.WinconRuns.
 Import ListNotations.
 Local Open Scope N_scope.
 
@@ -54,3 +54,74 @@ Theorem c03_example :
     strip_bytes_chunks [[97; 27; 91]; [51; 50; 109; 226; 130]; [172; 98]] Ground u8_new = Some (pss, st, u) /\
     concat (map (fun ps => concat (map p_bytes ps)) pss) = [97; 226; 130; 172; 98].
 Proof. vm_compute. eauto. Qed.
+
+(* ---- the styled-run extractor (wincon adapter) ------------------------------------ *)
+
+(* for EVERY list of chunks (no grammar hypothesis; cuts anywhere): feeding them
+   through WinconBytes::extract_next chunk by chunk never panics and yields, after
+   flattening the runs to tagged characters ([flatten : list (sstyle * list N) ->
+   list (sstyle * N)]), the same list as handing the whole input over at once; the
+   parser state and the capture carried after the last chunk are the one-shot
+   ones; no run is empty, hence the merged runs are equal too.  Both sides equal
+   the tagging obtained by folding the capture over the parser's event stream
+   (c03_wincon_extractor_is_fold): the extractor only decides where runs are cut. *)
+Theorem c03_wincon_chunked :
+  forall chunks, Forall (fun b => b < 256) (concat chunks) ->
+  exists itss its p c,
+    extract_chunks chunks parser_new capture_default = Some (itss, p, c) /\
+    extract_next (concat chunks) parser_new capture_default = Some (its, p, c) /\
+    flatten (concat itss) = flatten its /\
+    Forall (fun r => snd r <> []) (concat itss) /\ Forall (fun r => snd r <> []) its /\
+    merge_runs (concat itss) = merge_runs its.
+Proof. exact wincon_chunked. Qed.
+
+(* the same from any parser state the parser can be in (R: C02's simulation
+   relation) and any capture without pending text *)
+Theorem c03_wincon_chunked_from :
+  forall chunks p v c,
+  Forall (fun b => b < 256) (concat chunks) -> R p v -> c_printable c = [] -> c_ready c = None ->
+  exists itss its p' c',
+    extract_chunks chunks p c = Some (itss, p', c') /\
+    extract_next (concat chunks) p c = Some (its, p', c') /\
+    flatten (concat itss) = flatten its /\
+    merge_runs (concat itss) = merge_runs its.
+Proof. exact wincon_chunked_from. Qed.
+
+(* the characterisation behind it: one call of extract_next yields, flattened, the
+   pending text followed by the characters pushed by the events of the input, each
+   tagged with the capture's style at the time it was pushed ([tags]); it leaves
+   the parser state of the fold [run] and the style of the fold [style_after] *)
+Theorem c03_wincon_extractor_is_fold :
+  forall bs p v c,
+  Forall (fun b => b < 256) bs -> R p v ->
+  exists its p',
+    extract_next bs p c
+      = Some (its, p', mkCap (style_after (c_style c) (snd (vt_run v bs))) [] None) /\
+    run cfg_default p bs = Some (p', snd (vt_run v bs)) /\ R p' (fst (vt_run v bs)) /\
+    flatten its = pend0 c ++ tags (c_style c) (snd (vt_run v bs)) /\
+    Forall (fun r => snd r <> []) its.
+Proof. exact extract_next_spec. Qed.
+
+(* merging neighbouring runs of equal style is a function of the flattening *)
+Theorem c03_merge_is_function_of_flattening :
+  forall rs, Forall (fun r => snd r <> []) rs -> merge_runs rs = group_runs (flatten rs).
+Proof. exact merge_is_group. Qed.
+
+(* the SGR decoder never fails (the `expect` in to_ansi_color sits under a guard
+   that excludes it), so the extractor's only source of [None] is the parser *)
+Theorem c03_sgr_dispatch_total :
+  forall s ps, exists s', sgr_dispatch s ps = Some s'.
+Proof. exact sgr_dispatch_total. Qed.
+
+(* non-vacuity: "a ESC[31m b c ESC[0m d" cut inside the first sequence and between
+   b and c: four runs chunked, three one-shot, the same after merging *)
+Theorem c03_example_wincon :
+  exists itss its p c,
+    extract_chunks [[97; 27; 91; 51]; [49; 109; 98]; [99; 27; 91; 48; 109; 100]] parser_new capture_default
+      = Some (itss, p, c) /\
+    extract_next [97; 27; 91; 51; 49; 109; 98; 99; 27; 91; 48; 109; 100] parser_new capture_default
+      = Some (its, p, c) /\
+    length (concat itss) = 4%nat /\ length its = 3%nat /\
+    merge_runs (concat itss) = merge_runs its /\
+    merge_runs its = [(style_default, [97]); (mkStyle (Some (CAnsi 1)) None None 0, [98; 99]); (style_default, [100])].
+Proof. vm_compute. do 4 eexists. repeat split; reflexivity. Qed.
